@@ -108,6 +108,15 @@ pub fn apply(ws: &mut Workspace, op: &J) -> J {
 /// extension, text that is no XML, XML that is no DMN model, an empty file), `Workspace::new(Some(dir))` is called and the
 /// directory removed. The event names the candidates: the models written into `*.dmn` files.
 fn load_dir(ms: &[String]) -> (Workspace, J) {
+  let dir = write_model_dir(ms);
+  let ws = crate::util::silenced(|| Workspace::new(Some(dir.clone())));
+  let _ = std::fs::remove_dir_all(&dir);
+  let ev = observe(&ws, json!({"ev": "load", "cands": ms}), "ok");
+  (ws, ev)
+}
+
+/// Writes the directory described at `load_dir` and returns its path (the caller removes it).
+pub fn write_model_dir(ms: &[String]) -> std::path::PathBuf {
   static N: std::sync::atomic::AtomicUsize = std::sync::atomic::AtomicUsize::new(0);
   let base = std::path::PathBuf::from(std::env::var("VERIF_DIR").unwrap_or_else(|_| "/verif".to_string())).join("work/C17/dirs");
   let dir = base.join(format!("d{}_{}", std::process::id(), N.fetch_add(1, std::sync::atomic::Ordering::Relaxed)));
@@ -132,10 +141,7 @@ fn load_dir(ms: &[String]) -> (Workspace, J) {
   put("sub/broken.dmn", "<definitions");
   put("other.dmn", "<?xml version=\"1.0\"?><html><body/></html>");
   put("empty.dmn", "");
-  let ws = crate::util::silenced(|| Workspace::new(Some(dir.clone())));
-  let _ = std::fs::remove_dir_all(&dir);
-  let ev = observe(&ws, json!({"ev": "load", "cands": ms}), "ok");
-  (ws, ev)
+  dir
 }
 
 pub fn run_path(path: &[J]) -> Vec<J> {
